@@ -1,8 +1,264 @@
-//! C09 observations (see props/c09.py for the consumer).
+//! C09 observations: array-level `hom_rate` / `hom_rate_series` on generated amplitude arrays, and the setup-level
+//! `SPDC::hom_rate_series` / `hom_visibility` against the array-level functions fed with `jsa_range` output
+//! (see props/c09.py for the consumer).
+//!
+//! args: seed  n_array_cases  max_side  n_setup_cases
 #![allow(unused_imports, dead_code)]
+use crate::c11::{build_setup, setups};
 use crate::common::*;
-use serde_json::json;
+use serde_json::{json, Value};
+use spdcalc::dim::ucum::{M, RAD, S};
+use spdcalc::math::Integrator;
+use spdcalc::utils::Steps;
+use spdcalc::*;
 
-pub fn run(_args: &[String]) {
-  emit(json!({"kind": "not_implemented", "property": "C09"}));
+type C = Complex<f64>;
+
+fn res(r: Result<f64, String>) -> Value {
+  match r {
+    Ok(x) => fx(x),
+    Err(p) => json!({ "panic": p }),
+  }
+}
+
+fn space(xs: (f64, f64, usize), ys: (f64, f64, usize)) -> FrequencySpace {
+  FrequencySpace::new((xs.0 * RAD / S, xs.1 * RAD / S, xs.2), (ys.0 * RAD / S, ys.1 * RAD / S, ys.2))
+}
+
+fn transpose(a: &[C], n: usize) -> Vec<C> {
+  let mut t = a.to_vec();
+  for r in 0..n {
+    for c in 0..n {
+      t[c * n + r] = a[r * n + c];
+    }
+  }
+  t
+}
+
+fn dy(rng: &mut Rng) -> f64 {
+  // dyadic in [-2, 2] with denominator 16
+  (rng.below(65) as f64 - 32.0) / 16.0
+}
+
+/// one array-level observation: series, single calls without norm, single calls with an explicit norm
+fn observe(family: &str, gkind: &str, xs: (f64, f64, usize), ys: (f64, f64, usize), f: &[C], g: &[C], taus: &[f64], extra: Value) {
+  let sp = space(xs, ys);
+  let (fv, gv, tv) = (f.to_vec(), g.to_vec(), taus.to_vec());
+  let series = guarded(move || hom_rate_series(sp, &fv, &gv, tv.iter().map(|t| *t * S)));
+  let singles: Vec<Value> = taus
+    .iter()
+    .map(|t| {
+      let (fv, gv, t) = (f.to_vec(), g.to_vec(), *t);
+      res(guarded(move || hom_rate(sp, &fv, &gv, t * S, None)))
+    })
+    .collect();
+  let given_norm = 2.5 * jsi_norm(f) + 0.125;
+  let normed: Vec<Value> = taus
+    .iter()
+    .map(|t| {
+      let (fv, gv, t) = (f.to_vec(), g.to_vec(), *t);
+      res(guarded(move || hom_rate(sp, &fv, &gv, t * S, Some(given_norm))))
+    })
+    .collect();
+  emit(json!({
+    "kind": "arr", "family": family, "gkind": gkind, "cols": xs.2, "rows": ys.2,
+    "xs": [fx(xs.0), fx(xs.1)], "ys": [fx(ys.0), fx(ys.1)],
+    "fre": fxs(&f.iter().map(|z| z.re).collect::<Vec<_>>()), "fim": fxs(&f.iter().map(|z| z.im).collect::<Vec<_>>()),
+    "gre": fxs(&g.iter().map(|z| z.re).collect::<Vec<_>>()), "gim": fxs(&g.iter().map(|z| z.im).collect::<Vec<_>>()),
+    "taus": fxs(taus),
+    "series": match series { Ok(v) => json!(fxs(&v)), Err(p) => json!({"panic": p}) },
+    "singles": singles, "given_norm": fx(given_norm), "normed": normed, "jsi_norm": fx(jsi_norm(f)), "extra": extra,
+  }));
+}
+
+fn dyadic_tau(rng: &mut Rng) -> f64 {
+  (rng.below(97) as f64 - 48.0) / 16.0
+}
+
+fn array_cases(rng: &mut Rng, ncases: usize, max_side: usize) {
+  let families = ["random", "symmetric", "antisymmetric", "indep", "rect", "gauss_small", "hermitian"];
+  for case in 0..ncases {
+    let family = families[case % families.len()];
+    let n = if case < 21 { 1 + case / 7 } else { 1 + rng.below(max_side) };
+    // a square grid with identical dyadic axes (exact in binary64), unless the family says otherwise
+    let x0 = (rng.below(64) as f64) / 8.0;
+    let x1 = x0 + (1 + rng.below(48)) as f64 / 8.0;
+    let mut taus = vec![0.0, dyadic_tau(rng), dyadic_tau(rng)];
+    if case % 5 == 0 {
+      taus.push(rng.range(-4.0, 4.0));
+    }
+    match family {
+      "random" => {
+        let f: Vec<C> = (0..n * n).map(|_| C::new(dy(rng), dy(rng))).collect();
+        let g = transpose(&f, n);
+        observe(family, "transpose", (x0, x1, n), (x0, x1, n), &f, &g, &taus, json!({}));
+      }
+      "symmetric" | "antisymmetric" | "hermitian" => {
+        let mut f: Vec<C> = (0..n * n).map(|_| C::new(dy(rng), dy(rng))).collect();
+        for r in 0..n {
+          for c in 0..r {
+            f[r * n + c] = match family {
+              "symmetric" => f[c * n + r],
+              "antisymmetric" => -f[c * n + r],
+              _ => f[c * n + r].conj(),
+            };
+          }
+          if family == "antisymmetric" {
+            f[r * n + r] = C::new(0.0, 0.0);
+          }
+          if family == "hermitian" {
+            f[r * n + r] = C::new(f[r * n + r].re, 0.0);
+          }
+        }
+        if f.iter().all(|z| z.norm_sqr() == 0.0) {
+          continue;
+        }
+        let g = transpose(&f, n);
+        observe(family, "transpose", (x0, x1, n), (x0, x1, n), &f, &g, &taus, json!({}));
+      }
+      "indep" => {
+        // unrelated second array of a different norm on a square grid with different axes: pins which array is
+        // normalised, which is conjugated and the (wi - ws) orientation
+        let f: Vec<C> = (0..n * n).map(|_| C::new(dy(rng), dy(rng))).collect();
+        let g: Vec<C> = (0..n * n).map(|_| C::new(2.0 * dy(rng), dy(rng) / 2.0)).collect();
+        let y0 = (rng.below(64) as f64) / 8.0;
+        let y1 = y0 + (1 + rng.below(48)) as f64 / 8.0;
+        observe(family, "independent", (x0, x1, n), (y0, y1, n), &f, &g, &taus, json!({}));
+      }
+      "rect" => {
+        let rows = 1 + rng.below(max_side);
+        let f: Vec<C> = (0..n * rows).map(|_| C::new(dy(rng), dy(rng))).collect();
+        let g: Vec<C> = (0..n * rows).map(|_| C::new(dy(rng), dy(rng))).collect();
+        let y0 = (rng.below(64) as f64) / 8.0;
+        let y1 = y0 + (1 + rng.below(48)) as f64 / 8.0;
+        observe(family, "independent", (x0, x1, n), (y0, y1, rows), &f, &g, &taus, json!({}));
+      }
+      _ => {
+        // separable amplitude profile times the linear phase exp(i t0 (wi - ws)/2), small grid, arbitrary binary64 values
+        let t0 = dyadic_tau(rng);
+        let sp = space((x0, x1, n), (x0, x1, n)).as_steps();
+        let prof: Vec<C> = (0..n).map(|_| C::new(dy(rng), dy(rng))).collect();
+        let f: Vec<C> = (0..n * n)
+          .map(|k| {
+            let (ws, wi) = sp.value(k);
+            let (s, i) = (k % n, k / n);
+            prof[s] * prof[i] * C::from_polar(1.0, t0 * *((wi - ws) / (RAD / S)) / 2.0)
+          })
+          .collect();
+        if f.iter().all(|z| z.norm_sqr() == 0.0) {
+          continue;
+        }
+        let g = transpose(&f, n);
+        let mut taus = taus.clone();
+        taus.push(t0);
+        observe(family, "transpose", (x0, x1, n), (x0, x1, n), &f, &g, &taus, json!({"t0": fx(t0)}));
+      }
+    }
+  }
+}
+
+/// well-sampled separable Gaussians: the continuum closed form  1/2 (1 - exp(-sigma^2 (tau - t0)^2 / 2))
+fn gaussian_cases(rng: &mut Rng, ncases: usize) {
+  for _ in 0..ncases {
+    let sigma = rng.log_range(0.2, 5.0);
+    let w0 = rng.range(50.0, 500.0) * sigma;
+    let t0 = rng.range(-3.0, 3.0) / sigma;
+    let n = 48 + rng.below(24);
+    let half = 6.5 * sigma;
+    let xs = (w0 - half, w0 + half, n);
+    let sp = space(xs, xs).as_steps();
+    let f: Vec<C> = (0..n * n)
+      .map(|k| {
+        let (ws, wi) = sp.value(k);
+        let (ws, wi) = (*(ws / (RAD / S)), *(wi / (RAD / S)));
+        let a = (-(ws - w0).powi(2) / (2.0 * sigma * sigma)).exp() * (-(wi - w0).powi(2) / (2.0 * sigma * sigma)).exp();
+        C::from_polar(a, t0 * (wi - ws) / 2.0)
+      })
+      .collect();
+    let g = transpose(&f, n);
+    let mut taus = vec![t0, 0.0, t0 + 8.0 / sigma, t0 - 8.0 / sigma];
+    for _ in 0..6 {
+      taus.push(t0 + rng.range(-4.0, 4.0) / sigma);
+    }
+    let spc = space(xs, xs);
+    let (fv, gv, tv) = (f.clone(), g.clone(), taus.clone());
+    let series = guarded(move || hom_rate_series(spc, &fv, &gv, tv.iter().map(|t| *t * S)));
+    emit(json!({
+      "kind": "gauss", "n": n, "sigma": fx(sigma), "w0": fx(w0), "t0": fx(t0), "xs": [fx(xs.0), fx(xs.1)], "taus": fxs(&taus),
+      "series": match series { Ok(v) => json!(fxs(&v)), Err(p) => json!({"panic": p}) },
+    }));
+  }
+}
+
+fn setup_cases(rng: &mut Rng, ncases: usize) {
+  let list = setups();
+  for case in 0..ncases {
+    let (name, cfg) = &list[case % list.len()];
+    let spdc = match build_setup(cfg) {
+      Ok(s) => s,
+      Err(e) => {
+        emit(json!({"kind": "setup_skip", "setup": name, "why": e}));
+        continue;
+      }
+    };
+    let n = 2 + rng.below(if case < list.len() { 5 } else { 12 });
+    let ws = *(spdc.signal.frequency() / (RAD / S));
+    let wi = *(spdc.idler.frequency() / (RAD / S));
+    let wc = 0.5 * (ws + wi);
+    let d = rng.log_range(2e-4, 4e-3) * wc;
+    // symmetric axes (identical signal and idler ranges) two times out of three, otherwise each centred on its beam
+    let symmetric = case % 3 != 2;
+    let (xs, ys) = if symmetric { ((wc - d, wc + d, n), (wc - d, wc + d, n)) } else { ((ws - d, ws + d, n), (wi - 0.7 * d, wi + 1.1 * d, n)) };
+    let range = space(xs, ys);
+    let integrator = Integrator::default();
+    let dt = *(hom_time_delay(&spdc) / S);
+    let span = rng.log_range(0.3, 3.0) * std::f64::consts::PI / d;
+    let taus: Vec<f64> = vec![0.0, dt, dt + rng.range(-1.0, 1.0) * span, dt + rng.range(-1.0, 1.0) * span, rng.range(-1.0, 1.0) * span];
+    // setup-level calls
+    let (s1, t1) = (spdc.clone(), taus.clone());
+    let series_setup = guarded(move || s1.hom_rate_series(t1.iter().map(|t| *t * S), range, integrator));
+    let s2 = spdc.clone();
+    let vis_setup = guarded(move || s2.hom_visibility(range, integrator));
+    // array-level, fed with the sampled amplitudes
+    let sp = spdc.joint_spectrum(integrator);
+    let f = sp.jsa_range(range);
+    let g_swapped: Vec<C> = range.as_steps().into_iter().map(|(a, b)| sp.jsa(b, a)).collect();
+    let g_transposed = transpose(&f, n);
+    let same = g_swapped.iter().zip(g_transposed.iter()).all(|(a, b)| a.re.to_bits() == b.re.to_bits() && a.im.to_bits() == b.im.to_bits());
+    let (f1, g1, t2) = (f.clone(), g_swapped.clone(), taus.clone());
+    let series_swapped = guarded(move || hom_rate_series(range, &f1, &g1, t2.iter().map(|t| *t * S)));
+    let (f2, g2, t3) = (f.clone(), g_transposed.clone(), taus.clone());
+    let series_transposed = guarded(move || hom_rate_series(range, &f2, &g2, t3.iter().map(|t| *t * S)));
+    let (f3, g3) = (f.clone(), g_swapped.clone());
+    let rate_dt = guarded(move || hom_rate(range, &f3, &g3, dt * S, None));
+    let arrays = if n <= 8 {
+      json!({"fre": fxs(&f.iter().map(|z| z.re).collect::<Vec<_>>()), "fim": fxs(&f.iter().map(|z| z.im).collect::<Vec<_>>()),
+             "gre": fxs(&g_swapped.iter().map(|z| z.re).collect::<Vec<_>>()), "gim": fxs(&g_swapped.iter().map(|z| z.im).collect::<Vec<_>>())})
+    } else {
+      json!(null)
+    };
+    let ser = |r: Result<Vec<f64>, String>| match r {
+      Ok(v) => json!(fxs(&v)),
+      Err(p) => json!({ "panic": p }),
+    };
+    emit(json!({
+      "kind": "setup", "setup": name, "n": n, "symmetric": symmetric,
+      "xs": [fx(xs.0), fx(xs.1)], "ys": [fx(ys.0), fx(ys.1)], "taus": fxs(&taus), "dt": fx(dt),
+      "series_setup": ser(series_setup), "series_swapped": ser(series_swapped), "series_transposed": ser(series_transposed),
+      "vis_setup": match vis_setup { Ok((t, v)) => json!([fx(*(t / S)), fx(v)]), Err(p) => json!({"panic": p}) },
+      "rate_dt_array": res(rate_dt), "swapped_is_transpose": same, "jsi_norm": fx(jsi_norm(&f)), "arrays": arrays,
+    }));
+  }
+}
+
+pub fn run(args: &[String]) {
+  let seed = arg_u64(args, 0, 1);
+  let ncases = arg_u64(args, 1, 70) as usize;
+  let max_side = arg_u64(args, 2, 8) as usize;
+  let nsetup = arg_u64(args, 3, 6) as usize;
+  let ngauss = arg_u64(args, 4, 6) as usize;
+  let mut rng = Rng::new(seed);
+  array_cases(&mut rng, ncases, max_side);
+  gaussian_cases(&mut rng, ngauss);
+  setup_cases(&mut rng, nsetup);
 }
